@@ -86,17 +86,16 @@ def stratified(cases, per_class, per_valid, rng):
     return out
 
 
-def run(rep):
+def model_phase(rep):
+    """all TLC work: returns the namespace tables and the emitted cases per family"""
     import concurrent.futures
-    from . import c19_ns
-    rng = random.Random(rep.seed)
     quick = rep.tier == 'quick'
-    exh = ['FamCore', 'FamMut', 'FamMut3', 'FamCor', 'FamRank3', 'FamGen', 'FamPerm']
+    exh = ['FamCore', 'FamMut', 'FamMut3', 'FamCor', 'FamRank3', 'FamGen', 'FamPerm', 'FamSummed']
     if not quick:
-        exh = ['FamCore0', 'FamMut2', 'FamMut3', 'FamCor', 'FamRank3', 'FamGen', 'FamPerm2', 'FamThree', 'FamThreeV']
+        exh = ['FamCore0', 'FamMut2', 'FamMut3', 'FamCor2', 'FamRank3', 'FamGen', 'FamPerm2', 'FamSummed', 'FamThree', 'FamThreeV']
     sim = ['FamSimV', 'FamSimW', 'FamSimM', 'FamSimC', 'FamSimVO']
-    nsim = 250 if quick else 8000
-    mutants = ['trace-noshift', 'sum-nosummed'] if quick else sorted(SPEC_MUTANTS)
+    nsim = 150 if quick else 8000
+    mutants = ['trace-noshift'] if quick else sorted(SPEC_MUTANTS)
     tmo = 500 if quick else 2400
     jobs = {
         'exhaustive': lambda: run_tlc('c19-exh', exh, timeout=tmo),
@@ -106,7 +105,7 @@ def run(rep):
     }
     for bug in mutants:
         jobs['mutant:' + bug] = (lambda bug: lambda: run_tlc('c19-mutant-' + bug, [SPEC_MUTANTS[bug]], bug=bug, timeout=tmo))(bug)
-    with concurrent.futures.ThreadPoolExecutor(max_workers=3) as pool:
+    with concurrent.futures.ThreadPoolExecutor(max_workers=4) as pool:
         futs = {k: pool.submit(f) for k, f in jobs.items()}
         results = {k: f.result() for k, f in futs.items()}
     rep.lap('tlc')
@@ -145,48 +144,86 @@ def run(rep):
     for name, d in byfam.items():
         rep.constants[name] = dict(trees=len(d), valid=sum(c['ok'] == 'ok' for c in d.values()), invalid=sum(c['ok'] == 'bad' for c in d.values()))
 
-    # S->C replay
+    return tables, dict(byfam), sim
+
+
+def replay_phase(rep, tables, byfam, sim):
+    """S->C: every selected case on the real namespaces"""
+    from . import c19_ns
+    rng = random.Random(rep.seed)
+    quick = rep.tier == 'quick'
     R = c19_ns.Replayer(tables)
-    per_class = 25 if quick else 100000          # invalid strings replayed per (family, violated rule)
-    per_valid = 200 if quick else 100000         # valid strings replayed per family
-    nvalid = 0
+    per_class = 400 if quick else 100000         # invalid strings replayed per (family, violated rule): refusals are cheap
+    per_valid = 120 if quick else 100000         # valid strings replayed per family
     worst = {}
     seen = set()
+    status = {}          # (string, verdict) -> [case, family, judged engines, skipped engines]
+    pending = []
+
+    def record(c, name, eng, o):
+        st = status[c19_ns.text(c), c['ok']]
+        if o.kind == 'skip':
+            st[3] += 1
+            rep.skip('{}: outside the model ({})'.format(eng, 'integer ** negative integer' if c['ok'] == 'skip' else 'undefined value'))
+            return
+        st[2] += 1
+        if o.kind == 'violation':
+            s = c19_ns.text(c)
+            w = worst.get(o.key)
+            rank = (c['no'], len(s), s)
+            data = dict(expression=s, model=dict(verdict=c['ok'], rule=c['why'], axes=c['fr'], array=c['arr']), family=name)
+            if w is None or rank < w[0]:
+                worst[o.key] = (rank, o.what, data, (w[3] if w else 0) + 1)
+            else:
+                worst[o.key] = (w[0], w[1], w[2], w[3] + 1)
+
+    def flush():
+        # several arrays of one case (orders) count once per engine: the worst outcome wins
+        outs = R.evaluate([p for p, _ in pending])
+        best = {}
+        for (p, name), o in zip(pending, outs):
+            k = (c19_ns.text(p.case), p.case['ok'], p.engine)
+            if k not in best or (o.kind == 'violation' and best[k][2].kind != 'violation'):
+                best[k] = (p.case, name, o, p.engine)
+        for c, name, o, eng in best.values():
+            record(c, name, eng, o)
+        del pending[:]
+
     for name in sorted(byfam):
         cases = list(byfam[name].values())
-        sel = stratified(cases, 100000 if name in sim else per_class, 100000 if name in sim else per_valid, rng)
+        sel = stratified(cases, per_class, 100000 if name in sim else per_valid, rng)
         for c in sel:
             s = c19_ns.text(c)
             if (s, c['ok']) in seen:
                 continue
             seen.add((s, c['ok']))
-            engines = ['v2'] + (['v1'] if R.v1_applicable(c) else [])
-            judged = False
-            for eng in engines:
-                o = getattr(R, eng)(c)
-                if o.kind == 'skip':
-                    rep.skip('{}: outside the model ({})'.format(eng, 'integer ** negative integer' if c['ok'] == 'skip' else 'undefined value'))
-                    continue
-                judged = True
-                if o.kind == 'violation':
-                    w = worst.get(o.key)
-                    rank = (c['no'], len(s), s)
-                    data = dict(expression=s, model=dict(verdict=c['ok'], rule=c['why'], axes=c['fr'], array=c['arr']), family=name)
-                    if w is None or rank < w[0]:
-                        worst[o.key] = (rank, o.what, data, (w[3] if w else 0) + 1)
-                    else:
-                        worst[o.key] = (w[0], w[1], w[2], w[3] + 1)
-            if judged:
-                rep.traces += 1
-                nvalid += c['ok'] == 'ok'
-                rep.case((s, c['ok']), nontrivial=c['no'] >= 2)
-                if c['no'] >= 3 and name in sim:
-                    rep.sample(dict(expression=s, verdict=c['ok'], rule=c['why'], axes=c['fr'], array=c['arr'] if len(c['arr']['v']) <= 4 else '...'))
+            status[s, c['ok']] = [c, name, 0, 0]
+            for eng in ['v2'] + (['v1'] if R.v1_applicable(c) else []):
+                o, pend = getattr(R, eng)(c)
+                if o is not None:
+                    record(c, name, eng, o)
+                pending.extend((p, name) for p in pend)
+            if len(pending) >= 40:
+                flush()
+    flush()
+    nvalid = 0
+    for (s, ok), (c, name, judged, skipped) in status.items():
+        if judged:
+            rep.traces += 1
+            nvalid += ok == 'ok'
+            rep.case((s, ok), nontrivial=c['no'] >= 2)
+            if c['no'] >= 3 and name in sim:
+                rep.sample(dict(expression=s, verdict=ok, rule=c['why'], axes=c['fr'], array=c['arr'] if len(c['arr']['v']) <= 4 else '...'))
     rep.lap('replay')
     for key, (rank, what, data, count) in sorted(worst.items()):
         for _ in range(count):
             rep.violation(key, what, data)
     rep.extra['valid_expressions_compared'] = nvalid
+
+
+def run(rep):
+    tables, byfam, sim = model_phase(rep)
+    replay_phase(rep, tables, byfam, sim)
     rep.rule = ('cases = (expression string, verdict) pairs emitted by the ExprParse TLA+ machine, replayed on expression_v2 (`@`, attribute '
                 'assignment) and, where the syntax is shared, expression_v1 (eval_...); non-trivial = at least two productions')
     rep.assumptions += [
